@@ -901,6 +901,8 @@ package xmpp
 // (s is Serve's receiver, which is not nil)
 //@ func (*Session).Serve$1
 //@   requires s != nil
+//@   callsite (*Session).closeInputStream#1
+//@     preserves s
 //@   ghost viaClose bool = false
 //@   callsite (*Session).Close#1
 //@     after: viaClose = true
